@@ -22,12 +22,12 @@ pub(crate) fn parse_uri<R: Read>(scanner: &mut Scanner<R>) -> Result<Uri, Error>
         if scanner.cur == b'\\' {
             let next = scanner.peek()?;
             match next {
-                b':' | b'/' | b'?' | b'#' | b'\\' => {
+                b':' | b'/' | b'?' | b'#' => {
                     str.push(scanner.cur);
                     str.push(next);
                     scanner.read()?;
                 }
-                b'[' | b']' | b'@' | b'`' | b'&' | b'=' | b';' => {
+                b'[' | b']' | b'@' | b'`' | b'&' | b'=' | b';' | b'\\' => {
                     str.push(next);
                     scanner.read()?;
                 }
